@@ -276,8 +276,8 @@ func c09Property(p *c09Prog, o c09Obs) string {
 
 // c09Limit: the match target is not typed when the match is parsed and fc says so (not a coverage decision)
 func c09Limit(p *c09Prog, o c09Obs) bool {
-	return p.Context == "lambda-untyped" && !o.accepted &&
-		(strings.Contains(o.out, "Cast fail") || strings.Contains(o.out, "Unknown case rule") || strings.Contains(o.out, "Can't distinguish String var pattern"))
+	// any rejection that is not the coverage diagnostic: the wording of the parser's complaint is not ours to pin
+	return p.Context == "lambda-untyped" && !o.accepted && !o.timeout && o.named == "" && !strings.Contains(o.out, "does not cover all cases")
 }
 
 func firstLine(s string) string {
